@@ -657,3 +657,32 @@ func mavenSeq(arg sx.V) sx.V {
 	}
 	return sx.L(sx.L(out...), sx.L(cd...))
 }
+
+// maven_full: (universe) -> the COMPLETE client table of the universe: every
+// Version (each version of each package, and each declared requirement string
+// read as a concrete version), Versions and Requirements call a resolution of
+// any root can make, with the semver answers for all strings involved.  Used
+// to run the model beyond what a particular Go run asked the client.
+func init() { register("maven_full", mavenFull) }
+
+func mavenFull(arg sx.V) sx.V {
+	lc := buildUniverse(arg.Nth(0))
+	rec := newRec(lc)
+	ctx := context.Background()
+	for _, p := range arg.Nth(0).List() {
+		pk := resolve.PackageKey{System: resolve.Maven, Name: p.Nth(0).Str()}
+		rec.Versions(ctx, pk)
+		for _, v := range p.Nth(1).List() {
+			vk := resolve.VersionKey{PackageKey: pk, VersionType: resolve.Concrete, Version: v.Nth(0).Str()}
+			rec.Version(ctx, vk)
+			rec.Requirements(ctx, vk)
+			for _, d := range v.Nth(1).List() {
+				dk := resolve.PackageKey{System: resolve.Maven, Name: d.Nth(0).Str()}
+				rec.Versions(ctx, dk)
+				rec.Version(ctx, resolve.VersionKey{PackageKey: dk, VersionType: resolve.Concrete, Version: d.Nth(1).Str()})
+			}
+		}
+	}
+	simple, match, less := rec.semverTables()
+	return sx.L(sx.L(rec.vers...), sx.L(rec.vlists...), sx.L(rec.reqs...), simple, match, less)
+}
